@@ -279,11 +279,13 @@ func (l *QueueBlockingLimiter) tryAcquire(ctx context.Context) core.Listener {
 	if l.backlog.len() >= l.maxBacklogSize {
 		return nil
 	}
+	verifPoint("queue.afterLenCheck")
 
 	// Create a holder for a listener and block until a listener is released by another
 	// operation.  Holders will be unblocked in LIFO or FIFO order depending on whatever
 	// ordering was configured when backlog was instantiated
 	evict, eventReleaseChan := l.backlog.push(ctx)
+	verifPoint("queue.afterPush")
 
 	// We're using a nil chan so that we
 	// can avoid needing to duplicate the
